@@ -26,6 +26,10 @@ def run(check: Check):
   check.rule('R-TYPE', 'zero() and evaluate_example() of a metric build the same Stat class; zero() has all-zero arguments')
   check.rule('R-ORDER', 'a logits mask is added to the predictions before argmax/argsort; top-k ranks by argsort of the '
              'negated scores (ties toward the lowest index); the confusion matrix sets exactly cell [target, predicted]')
+  check.rule('R-XENT', 'cross entropy is -sum(one_hot(target) * log_softmax(pred), axis=-1): the log-probabilities come from '
+             'log_softmax (never log(softmax(.)), which overflows to -inf/NaN for finite logits that are far apart), sparse targets are '
+             'one-hot encoded over the class axis, the reduction is over the class axis only')
+  _xent(check)
   check.undecided('agreement of every metric with an independent reference implementation on all inputs (values)')
   metrics = mr.metric_classes(repo)
   stats = [c.name for c in mr.stat_classes(repo)]
@@ -326,6 +330,52 @@ def _get_target_weight(check: Check):
   ok = ok and ret_ok
   check.ob('R-FOLD.mask', fi, 'weight *= target != masked_value', ok and init_ok,
            'a position is unmasked iff it differs from every masked value: conjunction of inequalities starting from ones')
+
+
+def _xent(check: Check):
+  repo = check.repo
+  fi = repo.func(MOD, 'unreduced_cross_entropy_loss')
+  ff = FuncFlow.of(repo, fi)
+  check.analysed(fi)
+  p_t, p_p = fi.positional_params[:2]
+  SOFTMAX = {'jax.nn.softmax', 'jax.scipy.special.softmax'}
+  LOGS = {'jax.numpy.log', 'numpy.log', 'jax.numpy.log2', 'jax.numpy.log10'}
+  for _, c in ff.calls():
+    if ff.ext(c.func) in LOGS and c.args:
+      unstable = any(isinstance(v, ast.Call) and ff.ext(v.func) in SOFTMAX for a in c.args[:1] for v in ff.deep_walk(a))
+      check.ob('R-XENT.stable', fi, txt(c)[:70], not unstable,
+               'log(softmax(x)) underflows to log(0) = -inf (and 0 * -inf = NaN) as soon as two finite logits differ by ~90 or more; '
+               'log_softmax subtracts the maximum first', node=c)
+  ls = [c for _, c in ff.calls() if ff.ext(c.func) in ('jax.nn.log_softmax', 'jax.scipy.special.log_softmax')]
+  ok_ls = len(ls) == 1 and ls[0].args and ff.param_of(ls[0].args[0]) == p_p and not any(
+      k.arg == 'axis' and txt(k.value) not in ('-1',) for k in ls[0].keywords)
+  if ls:
+    check.ob('R-XENT', fi, 'log_softmax(preds)', ok_ls, 'log-probabilities of the predictions over the class (last) axis')
+  else:
+    check.undecided('unreduced_cross_entropy_loss does not call log_softmax: its formulation is not judged beyond R-XENT.stable')
+  oh = [c for _, c in ff.calls() if ff.ext(c.func) == 'jax.nn.one_hot']
+  ok_oh = len(oh) == 1 and len(oh[0].args) >= 2 and ff.param_of(oh[0].args[0]) == p_t and any(
+      isinstance(v, ast.Subscript) and ff.param_of(v.value.value if isinstance(v.value, ast.Attribute) else v.value) == p_p and txt(v.slice) == '-1'
+      for v in ff.expand(oh[0].args[1]))
+  if oh:
+    check.ob('R-XENT', fi, 'one_hot(targets, preds.shape[-1])', ok_oh, 'sparse targets are encoded over the number of classes of the predictions')
+  ret_ok = None
+  for _, rv in ff.returns():
+    for v in ff.expand(rv):
+      if ls and isinstance(v, ast.UnaryOp) and isinstance(v.op, ast.USub) and isinstance(v.operand, ast.Call) and ff.ext(v.operand.func) == 'jax.numpy.sum':
+        sm = v.operand
+        ax = next((k.value for k in sm.keywords if k.arg == 'axis'), None)
+        prod = sm.args[0] if sm.args else None
+        facs = []
+        if isinstance(prod, ast.BinOp) and isinstance(prod.op, ast.Mult):
+          facs = [prod.left, prod.right]
+        has_lp = ls and any(any(w is ls[0] for w in ff.expand(f)) for f in facs)
+        has_t = any(any((isinstance(w, ast.Call) and w in oh) or ff.param_of(w) == p_t for w in ff.expand(f)) or (isinstance(f, ast.Name) and f.id == p_t)
+                    for f in facs)
+        ret_ok = ax is not None and txt(ax) == '-1' and bool(has_lp) and has_t
+  if ret_ok is not None:
+    check.ob('R-XENT', fi, '-sum(targets * log_preds, axis=-1)', ret_ok, 'the loss of an example is minus the log-probability of its target, '
+             'reduced over the class axis only')
 
 
 def _accuracy(check: Check):
